@@ -41,7 +41,7 @@ WriteStruct(v) ==            \* v \in Fn: change <struct> / write_<struct>(v)
     /\ hw' = [m \in Members |-> Store(v[m])] /\ mem' = hw' /\ str' = hw'
 
 WriteMember(m, v) ==         \* change <member> / write_<member>(v)
-    /\ hw' \in {h \in Fn : h[m] = Store(v) /\ Others(m, h, hw, str)}
+    /\ hw' \in {h \in Fn : h[m] = Store(v) /\ Others(m, h, hw, [k \in Members |-> Store(str[k])])}
     /\ mem' \in {f \in Fn : f[m] = Store(v) /\ Others(m, f, mem, hw')}
     /\ str' = mem'
 
